@@ -1,4 +1,5 @@
 import ParryModel.C09.Model2
+import ParryModel.C09.Model3
 /-!
 # C09 model, part 5 (round fu5): `SimdAabb::transform_by`, `BoundingSphere::tightened`
 -/
@@ -17,5 +18,16 @@ its own isometry. -/
 def transformBy (a : SimdAabb3 K) (m0 m1 m2 m3 : Iso3 K) : List (Aabb3 K) :=
   [a.l0.transformBy m0, a.l1.transformBy m1, a.l2.transformBy m2, a.l3.transformBy m3]
 end SimdAabb3
+
+/-! ## histories of `scaled(s₁) … scaled(sₖ)` on composites -/
+
+/-- TriMesh / Polyline: every `scaled(s)` replaces the QBVH root box by `root.scaled(s)` -/
+def Aabb3.scaledHist (b : Aabb3 K) (ss : List (V3 K)) : Aabb3 K := ss.foldl Aabb3.scaled b
+def Aabb2.scaledHist (b : Aabb2 K) (ss : List (V2 K)) : Aabb2 K := ss.foldl Aabb2.scaled b
+/-- HeightField: the state is `(stored box, current scale)`; `scaled(s)` = `set_scale(scale ∘ s)` -/
+def heightfieldHist3 (b : Aabb3 K) (s0 : V3 K) (ss : List (V3 K)) : Aabb3 K × V3 K :=
+  ss.foldl (fun st sc => (heightfieldRescale3 st.1 st.2 sc, st.2.cmul sc)) (b, s0)
+def heightfieldHist2 (b : Aabb2 K) (s0 : V2 K) (ss : List (V2 K)) : Aabb2 K × V2 K :=
+  ss.foldl (fun st sc => (heightfieldRescale2 st.1 st.2 sc, st.2.cmul sc)) (b, s0)
 
 end Model
